@@ -15,8 +15,19 @@ CLAIM = {
              "numbers or commodity-indexed families of exact rationals. Theorems for ALL trees and stores: C08_eval (the model evaluator "
              "computes the reference denotation: same value commodity by commodity, same error), C08_typing_* (each ill-typed shape is an "
              "error, never a value), C08_single / C08_posting / C08_amount (multi-commodity results and non-zero bare numbers are rejected "
-             "where a single / posting amount is required), C08_total (no crash). Precedence/associativity of the parser: see the theorems "
-             "list (C08_parse_*); clauses not yet carried by a theorem are covered by the correspondence stream and named in the evidence. "
+             "where a single / posting amount is required), C08_total (no crash). Precedence/associativity of the parser is now a theorem about "
+             "the fuel-indexed model of value_expr/unary_expr/mul_expr/add_expr (infixl = separated_foldl1) and the printer "
+             "fmt_with_alignment, for ALL trees, continuations and display-precision tables: C08_parse (the text printed for a parenthesised "
+             "stratified sum is read back as exactly its left-nested tree, whatever follows; the tree reads back as the stratified tree), "
+             "C08_parse_value / C08_parse_sum / C08_parse_tree / C08_parse_follow / C08_parse_prec (amounts and the parser's own tree type, "
+             "before any continuation that does not extend the last token; with declared precisions the numbers come back as padded), "
+             "C08_parse_unambiguous (two printable stratified trees with the same text are equal), C08_parse_image (for EVERY input, a tree "
+             "the parser returns is the image of a stratified tree and carries no negative literal as an un-negated operand). Hypotheses of "
+             "the round trip: numbers satisfy wfNumber (the literal scanner reads their printed form back: C07), commodities consist of "
+             "commodity characters, and the tree is plain (plainV); not_C08_parse_wfOnly proves that Unparse.wfVExpr alone is not enough "
+             "(`(-1)` printed from Paren(Value(-1)) is read as Paren(Negate(Value(1))), in the Rust as in the model). Not proved here: that the "
+             "fuel bound parseFuel suffices for inputs that are NOT printer output (the round trip proves it for printer output), and the "
+             "winnow combinators themselves are modelled, not verified. "
              "Tie to the code: every expression text with up to 2 (quick) / 3 (thorough) binary operators over the leaves 0, 2, 3 A, 5 B "
              "(bare, parenthesised and negated operands), random trees to depth 6 with random spacing, and a malformed stream are run "
              "through the real parser and evaluator as posting amount, cost, lot price, balance assignment and Ledger::eval argument; "
@@ -30,7 +41,13 @@ THEOREMS = ["Okane.C08.C08_eval", "Okane.C08.C08_eval_mut", "Okane.C08.C08_typin
             "Okane.C08.C08_typing_mul", "Okane.C08.C08_typing_div_zero", "Okane.C08.C08_typing_div_amounts",
             "Okane.C08.C08_typing_div_multi", "Okane.C08.C08_single", "Okane.C08.C08_posting", "Okane.C08.C08_amount",
             "Okane.C08.C08_zero", "Okane.C08.C08_multi", "Okane.C08.checkAdd_corr", "Okane.C08.checkSub_corr",
-            "Okane.C08.checkMul_corr", "Okane.C08.checkDiv_corr"]
+            "Okane.C08.checkMul_corr", "Okane.C08.checkDiv_corr",
+            "Okane.C08.C08_parse", "Okane.C08.C08_parse_value", "Okane.C08.C08_parse_sum", "Okane.C08.C08_parse_tree",
+            "Okane.C08.C08_parse_follow", "Okane.C08.C08_parse_prec", "Okane.C08.C08_parse_unambiguous",
+            "Okane.C08.C08_parse_image", "Okane.C08.not_C08_parse_wfOnly",
+            "Okane.ExprParse.valueE_roundtrip", "Okane.ExprParse.addE_roundtrip", "Okane.ExprParse.parse_print",
+            "Okane.ExprParse.parse_print_follow", "Okane.ExprParse.parse_print_prec", "Okane.ExprParse.text_injective",
+            "Okane.ExprParse.valueExpr_image"]
 
 POSITIONS = ["eval", "amount", "cost", "lot", "balance"]
 LEAVES = ["0", "2", "3 A", "5 B"]
